@@ -5,8 +5,8 @@ Two ONE-STEP interpretations of a reference text are defined here:
   * `stepGo`   — what openapi3/loader.go does: `url.Parse` (first `#` splits), `resolvePath`
                  (`path.Join ∘ path.Dir`, absolute paths and URLs taken as they are), whole-file references
                  decoded as the expected kind, typed drill-down with `unescapeRefString` (`~1` then `~0`),
-                 `T.Extensions` for unknown top-level keys, the raw re-read fallback (which reads the
-                 REFERRING file, `path`), the nil typed field (panic);
+                 `T.Extensions` for unknown top-level keys, the raw re-read fallback (of the REFERENCED
+                 file `componentPath` since f972c33; a nil typed field on the way is a drill error since 25200f7);
   * `stepSpec` — RFC 3986 reference resolution (merge + remove_dot_segments) and an RFC 6901 pointer
                  evaluated in the RAW JSON of the target file. It never looks at typed structures.
 `buildWorld` closes the set of nodes under `stepGo` and produces the abstract `Loader.World` on which
@@ -147,91 +147,218 @@ def rawAt : Json → List String → Option Json
     | none => none
   | _, _ :: _ => none
 
-/-! ### Typed traversal: the reference-capable child positions of each kind -/
+/-! ### Typed traversal: the child positions of each kind
+
+Two tables, each compared with a table regenerated from the source on every run (`Gen.LoaderPositions`):
+  * `positions` — what each `resolve*Ref` routine, each walk helper and `ResolveRefsIn` hand to a resolver, as a
+    tree of loops and calls in SOURCE ORDER (read from the bodies of the routines, field selectors translated to
+    JSON names by the struct tags). The model's `children` is the interpretation of that tree on a raw JSON value.
+  * `refPositions` — where a value of each kind CAN hold a reference-capable object, read from the TYPE
+    declarations. The specification's `specChildren` is its interpretation: it does not depend on what the loader
+    walks. `Props/C02.lean` proves that every such position is walked.
+Path segments: a JSON key; `*` every member of an object; `~` every member of a maplike object (Paths, Callback,
+Responses) that is not an `x-` extension; `#` every array element; `{op}` every operation of a path item. -/
 
 structure Child where
   toks   : List String
   j      : Json
   kind   : Kind
-  walked : Bool
 
-def one (j : Json) (pre : List String) (k : String) (kind : Kind) (walked : Bool) : List Child :=
-  match sub j k with
-  | some v => if isObj v then [⟨pre ++ [k], v, kind, walked⟩] else []
-  | none => []
-def mapKids (j : Json) (pre : List String) (k : String) (kind : Kind) (walked : Bool) : List Child :=
-  match sub j k with
-  | some m => (kvs m).filterMap (fun (n, v) => if isObj v then some ⟨pre ++ [k, n], v, kind, walked⟩ else none)
-  | none => []
-def arrKids (j : Json) (pre : List String) (k : String) (kind : Kind) (walked : Bool) : List Child :=
-  match sub j k with
-  | some (.arr a) => (a.toList.zipIdx).filterMap (fun (v, i) => if isObj v then some ⟨pre ++ [k, toString i], v, kind, walked⟩ else none)
-  | _ => []
 def notExt (n : String) : Bool := !(n.startsWith "x-")
-/-- the media types of a `content` map, sorted, with their token prefix -/
-def mediaTypes (j : Json) (pre : List String) : List (List String × Json) :=
-  match sub j "content" with
-  | some m => (kvs m).filterMap (fun (n, v) => if isObj v then some (pre ++ ["content", n], v) else none)
-  | none => []
-def encodingHeaders (mt : Json) (pre : List String) : List Child :=
-  match sub mt "encoding" with
-  | some m => (kvs m).flatMap (fun (n, v) => mapKids v (pre ++ ["encoding", n]) "headers" .header false)
-  | none => []
 
 def opNames : List String := ["connect", "delete", "get", "head", "options", "patch", "post", "put", "trace"]
 
-/-- children of a VALUE of kind `k`, in the order the resolver of that kind visits them; positions that
-    no resolver visits carry `walked = false` -/
-def children (k : Kind) (j : Json) : List Child :=
-  match k with
-  | .schema =>
-    one j [] "items" .schema true ++ mapKids j [] "properties" .schema true ++
-    one j [] "additionalProperties" .schema true ++ one j [] "not" .schema true ++
-    arrKids j [] "allOf" .schema true ++ arrKids j [] "anyOf" .schema true ++ arrKids j [] "oneOf" .schema true
-  | .header =>
-    one j [] "schema" .schema true ++ mapKids j [] "examples" .example false ++
-    (mediaTypes j []).flatMap (fun (p, mt) => one mt p "schema" .schema false ++ mapKids mt p "examples" .example false ++ encodingHeaders mt p)
-  | .parameter =>
-    (mediaTypes j []).flatMap (fun (p, mt) => one mt p "schema" .schema true) ++
-    one j [] "schema" .schema true ++ mapKids j [] "examples" .example false ++
-    (mediaTypes j []).flatMap (fun (p, mt) => mapKids mt p "examples" .example false ++ encodingHeaders mt p)
-  | .requestBody =>
-    (mediaTypes j []).flatMap (fun (p, mt) => mapKids mt p "examples" .example true ++ one mt p "schema" .schema true) ++
-    (mediaTypes j []).flatMap (fun (p, mt) => encodingHeaders mt p)
-  | .response =>
-    mapKids j [] "headers" .header true ++
-    (mediaTypes j []).flatMap (fun (p, mt) => mapKids mt p "examples" .example true ++ one mt p "schema" .schema true) ++
-    mapKids j [] "links" .link true ++
-    (mediaTypes j []).flatMap (fun (p, mt) => encodingHeaders mt p)
-  | .securityScheme => []
-  | .example => []
-  | .link => []
-  | .callback =>
-    (kvs j).filterMap (fun (n, v) => if notExt n && isObj v then some ⟨[n], v, .pathItem, true⟩ else none)
-  | .pathItem =>
-    arrKids j [] "parameters" .parameter true ++
-    opNames.flatMap (fun o => match sub j o with
-      | some op =>
-        arrKids op [o] "parameters" .parameter true ++ one op [o] "requestBody" .requestBody true ++
-        (match sub op "responses" with
-         | some m => (kvs m).filterMap (fun (n, v) => if notExt n && isObj v then some ⟨[o, "responses", n], v, .response, true⟩ else none)
-         | none => []) ++
-        mapKids op [o] "callbacks" .callback true
-      | none => [])
+/-- the JSON values a path leads to from `j`, with their pointer tokens -/
+def walkPath : List String → Json → List String → List (List String × Json)
+  | [], j, pre => [(pre, j)]
+  | seg :: rest, j, pre =>
+    if seg = "*" then (kvs j).flatMap (fun (n, v) => walkPath rest v (pre ++ [n]))
+    else if seg = "~" then ((kvs j).filter (fun (n, _) => notExt n)).flatMap (fun (n, v) => walkPath rest v (pre ++ [n]))
+    else if seg = "#" then
+      match j with
+      | .arr a => (a.toList.zipIdx).flatMap (fun (v, i) => walkPath rest v (pre ++ [toString i]))
+      | _ => []
+    else if seg = "{op}" then
+      opNames.flatMap (fun o => match sub j o with
+        | some v => walkPath rest v (pre ++ [o])
+        | none => [])
+    else match sub j seg with
+      | some v => walkPath rest v (pre ++ [seg])
+      | none => []
 
-/-- top-level positions of a document, in `ResolveRefsIn` order (`components.links` is never visited) -/
-def docChildren (j : Json) : List Child :=
-  (match sub j "components" with
-   | some c =>
-     mapKids c ["components"] "headers" .header true ++ mapKids c ["components"] "parameters" .parameter true ++
-     mapKids c ["components"] "requestBodies" .requestBody true ++ mapKids c ["components"] "responses" .response true ++
-     mapKids c ["components"] "schemas" .schema true ++ mapKids c ["components"] "securitySchemes" .securityScheme true ++
-     mapKids c ["components"] "examples" .example true ++ mapKids c ["components"] "callbacks" .callback true ++
-     mapKids c ["components"] "links" .link false
-   | none => []) ++
-  (match sub j "paths" with
-   | some m => (kvs m).filterMap (fun (n, v) => if notExt n && isObj v then some ⟨["paths", n], v, .pathItem, true⟩ else none)
-   | none => [])
+/-- what a routine calls after its `$ref` block -/
+inductive Call
+  | res (k : Kind)     -- loader.resolve<K>Ref(doc, <position>, documentPath …)
+  | content            -- loader.resolveContentRefs(doc, <position>, documentPath)
+  | examples           -- loader.resolveExampleRefs(doc, <position>, documentPath)
+  deriving DecidableEq, Repr
+
+def goName : Kind → String
+  | .header => "Header" | .parameter => "Parameter" | .requestBody => "RequestBody" | .response => "Response"
+  | .schema => "Schema" | .securityScheme => "SecurityScheme" | .example => "Example" | .callback => "Callback"
+  | .link => "Link" | .pathItem => "PathItem"
+
+def Call.name : Call → String
+  | .res k => goName k
+  | .content => "ContentRefs"
+  | .examples => "ExampleRefs"
+
+/-- the statements after the `$ref` block, as far as they concern child positions -/
+inductive Pos
+  | call (c : Call) (path : List String)        -- a resolver / helper called on the position at `path`
+  | each (path : List String) (body : List Pos) -- `for … range`: `path` leads to the loop elements
+  | guard                                        -- a `return` of a new error
+
+def eachCall (path : List String) (k : Kind) : Pos := .each path [.call (.res k) []]
+
+def schemaPos : List Pos :=
+  [.call (.res .schema) ["items"], eachCall ["properties", "*"] .schema, .call (.res .schema) ["additionalProperties"],
+   .call (.res .schema) ["not"], eachCall ["allOf", "#"] .schema, eachCall ["anyOf", "#"] .schema, eachCall ["oneOf", "#"] .schema]
+def headerPos : List Pos := [.call .content ["content"], .call (.res .schema) ["schema"], .call .examples ["examples"]]
+/-- a parameter with both `schema` and `content` is a load error (the generator never writes one) -/
+def parameterPos : List Pos := .guard :: headerPos
+def requestBodyPos : List Pos := [.call .content ["content"]]
+def responsePos : List Pos := [eachCall ["headers", "*"] .header, .call .content ["content"], eachCall ["links", "*"] .link]
+def callbackPos : List Pos := [eachCall ["~"] .pathItem]
+def pathItemPos : List Pos :=
+  [eachCall ["parameters", "#"] .parameter,
+   .each ["{op}"] [eachCall ["parameters", "#"] .parameter, .call (.res .requestBody) ["requestBody"],
+                   eachCall ["responses", "~"] .response, eachCall ["callbacks", "*"] .callback]]
+/-- `resolveContentRefs`: per media type its examples, its schema, then the headers of each of its encodings -/
+def contentPos : List Pos :=
+  [.each ["*"] [.call .examples ["examples"], .call (.res .schema) ["schema"],
+                .each ["encoding", "*"] [eachCall ["headers", "*"] .header]]]
+/-- `resolveExampleRefs` -/
+def examplesPos : List Pos := [eachCall ["*"] .example]
+/-- `ResolveRefsIn` -/
+def documentPos : List Pos :=
+  [eachCall ["components", "headers", "*"] .header, eachCall ["components", "parameters", "*"] .parameter,
+   eachCall ["components", "requestBodies", "*"] .requestBody, eachCall ["components", "responses", "*"] .response,
+   eachCall ["components", "schemas", "*"] .schema, eachCall ["components", "securitySchemes", "*"] .securityScheme,
+   eachCall ["components", "examples", "*"] .example, eachCall ["components", "callbacks", "*"] .callback,
+   eachCall ["components", "links", "*"] .link, eachCall ["paths", "~"] .pathItem]
+
+def positions : Kind → List Pos
+  | .schema => schemaPos | .header => headerPos | .parameter => parameterPos | .requestBody => requestBodyPos
+  | .response => responsePos | .callback => callbackPos | .pathItem => pathItemPos
+  | .securityScheme => [] | .example => [] | .link => []
+
+mutual
+/-- the children a position tree yields on a JSON value (`leaf` says what a call yields) -/
+def Pos.run (leaf : Call → Json → List String → List Child) : Pos → Json → List String → List Child
+  | .call c path, j, pre => (walkPath path j pre).flatMap (fun (p, v) => leaf c v p)
+  | .each path body, j, pre => (walkPath path j pre).flatMap (fun (p, v) => Pos.runList leaf body v p)
+  | .guard, _, _ => []
+def Pos.runList (leaf : Call → Json → List String → List Child) : List Pos → Json → List String → List Child
+  | [], _, _ => []
+  | p :: ps, j, pre => Pos.run leaf p j pre ++ Pos.runList leaf ps j pre
+end
+
+mutual
+/-- the token list of the generated table -/
+def Pos.flat : Pos → List (String × String × List String)
+  | .call c path => [("call", c.name, path)]
+  | .each path body => ("each", "", path) :: (Pos.flatList body ++ [("end", "", [])])
+  | .guard => [("guard", "", [])]
+def Pos.flatList : List Pos → List (String × String × List String)
+  | [] => []
+  | p :: ps => Pos.flat p ++ Pos.flatList ps
+end
+
+mutual
+/-- the callees in source order (`!error` for a guard): the `calls` column of `Gen.resolverSkeleton` -/
+def Pos.callees : Pos → List String
+  | .call c _ => [c.name]
+  | .each _ body => Pos.calleesList body
+  | .guard => ["!error"]
+def Pos.calleesList : List Pos → List String
+  | [] => []
+  | p :: ps => Pos.callees p ++ Pos.calleesList ps
+end
+
+mutual
+/-- every full path a tree reaches with a resolver, `{op}` and the helpers expanded (`leaf`) -/
+def Pos.paths (leaf : Call → List String → List (List String × String)) : Pos → List String → List (List String × String)
+  | .call c path, pre => leaf c (pre ++ path)
+  | .each path body, pre => Pos.pathsList leaf body (pre ++ path)
+  | .guard, _ => []
+def Pos.pathsList (leaf : Call → List String → List (List String × String)) : List Pos → List String → List (List String × String)
+  | [], _ => []
+  | p :: ps, pre => Pos.paths leaf p pre ++ Pos.pathsList leaf ps pre
+end
+
+/-- a resolver is handed an object (a null or scalar entry is not a reference-capable object) -/
+def leaf0 : Call → Json → List String → List Child
+  | .res k, v, p => if isObj v then [⟨p, v, k⟩] else []
+  | _, _, _ => []
+def leaf1 : Call → Json → List String → List Child
+  | .examples, v, p => Pos.runList leaf0 examplesPos v p
+  | c, v, p => leaf0 c v p
+def leaf2 : Call → Json → List String → List Child
+  | .content, v, p => Pos.runList leaf1 contentPos v p
+  | c, v, p => leaf1 c v p
+
+/-- children of a VALUE of kind `k`, in the order the resolver of that kind visits them -/
+def children (k : Kind) (j : Json) : List Child := Pos.runList leaf2 (positions k) j []
+
+/-- top-level positions of a document, in `ResolveRefsIn` order -/
+def docChildren (j : Json) : List Child := Pos.runList leaf2 documentPos j []
+
+def pleaf0 : Call → List String → List (List String × String)
+  | .res k, p => [(p, goName k)]
+  | _, _ => []
+def pleaf1 : Call → List String → List (List String × String)
+  | .examples, p => Pos.pathsList pleaf0 examplesPos p
+  | c, p => pleaf0 c p
+def pleaf2 : Call → List String → List (List String × String)
+  | .content, p => Pos.pathsList pleaf1 contentPos p
+  | c, p => pleaf1 c p
+
+/-- `{op}` written out -/
+def expandOps (p : List String × String) : List (String × String) :=
+  if p.1.contains "{op}" then opNames.map (fun o => ("/".intercalate (p.1.map (fun s => if s = "{op}" then o else s)), p.2))
+  else [("/".intercalate p.1, p.2)]
+
+/-- every (JSON path, kind) the routine of a kind — with the helpers it calls — hands to a resolver -/
+def walkedPaths (ps : List Pos) : List (String × String) := (Pos.pathsList pleaf2 ps []).flatMap expandOps
+
+/-! #### reference-capable positions by TYPE (the specification's notion of "a reference in the document") -/
+
+def contentRefPositions : List (List String × Kind) :=
+  [(["content", "*", "encoding", "*", "headers", "*"], .header), (["content", "*", "examples", "*"], .example),
+   (["content", "*", "schema"], .schema)]
+
+def opRefPositions (o : String) : List (List String × Kind) :=
+  [([o, "callbacks", "*"], .callback), ([o, "parameters", "#"], .parameter), ([o, "requestBody"], .requestBody),
+   ([o, "responses", "~"], .response)]
+
+def refPositions : Kind → List (List String × Kind)
+  | .schema => [(["additionalProperties"], .schema), (["allOf", "#"], .schema), (["anyOf", "#"], .schema), (["items"], .schema),
+                (["not"], .schema), (["oneOf", "#"], .schema), (["properties", "*"], .schema)]
+  | .header => contentRefPositions ++ [(["examples", "*"], .example), (["schema"], .schema)]
+  | .parameter => contentRefPositions ++ [(["examples", "*"], .example), (["schema"], .schema)]
+  | .requestBody => contentRefPositions
+  | .response => contentRefPositions ++ [(["headers", "*"], .header), (["links", "*"], .link)]
+  | .callback => [(["~"], .pathItem)]
+  | .pathItem =>
+    -- (sorted like the generated table: "options" < "parameters" < "patch")
+    (["connect", "delete", "get", "head", "options"].flatMap opRefPositions) ++ [(["parameters", "#"], .parameter)] ++
+    (["patch", "post", "put", "trace"].flatMap opRefPositions)
+  | .securityScheme => [] | .example => [] | .link => []
+
+def docRefPositions : List (List String × Kind) :=
+  [(["components", "callbacks", "*"], .callback), (["components", "examples", "*"], .example),
+   (["components", "headers", "*"], .header), (["components", "links", "*"], .link),
+   (["components", "parameters", "*"], .parameter), (["components", "requestBodies", "*"], .requestBody),
+   (["components", "responses", "*"], .response), (["components", "schemas", "*"], .schema),
+   (["components", "securitySchemes", "*"], .securityScheme), (["paths", "~"], .pathItem)]
+
+def atPositions (ps : List (List String × Kind)) (j : Json) : List Child :=
+  ps.flatMap (fun (path, k) => (walkPath path j []).filterMap (fun (p, v) => if isObj v then some ⟨p, v, k⟩ else none))
+
+/-- the reference-capable objects directly below a value of kind `k` (by type, in no particular order) -/
+def specChildren (k : Kind) (j : Json) : List Child := atPositions (refPositions k) j
+def specDocChildren (j : Json) : List Child := atPositions docRefPositions j
 
 /-! ### Concrete nodes -/
 
@@ -250,7 +377,7 @@ structure CNode where
   rid     : String
   j       : Json
   kids    : List (List String × Kind)
-  skipped : List (List String × Kind)
+  skipped : List (List String × Kind)   -- reference-capable by type, not walked (none at present: `walk_covers`)
   typed   : Bool              -- a position of the typed document tree of `src`
   nat     : Bool := true      -- exists in a real run (not only in the over-approximating closure over contexts)
   copy    : Bool := false     -- the local copy `resolved` that a resolver makes of a target that is itself a reference
@@ -270,50 +397,102 @@ def enum : Nat → Cx → String → List String → Kind → Json → Bool → 
   | f + 1, cx, src, ptr, k, j, typed =>
     let r := refOf j
     let cs := if r.isSome then [] else children k j
+    let extra := if r.isSome then [] else (specChildren k j).filter (fun c => !cs.any (fun d => d.toks == c.toks && d.kind == c.kind))
     { cx := cx, src := src, ptr := ptr, kind := k, ref := r, rid := ridOf k j ptr, j := j,
-      kids := (cs.filter (·.walked)).map (fun c => (ptr ++ c.toks, c.kind)),
-      skipped := (cs.filter (fun c => !c.walked)).map (fun c => (ptr ++ c.toks, c.kind)), typed := typed } ::
-    cs.flatMap (fun c => enum f cx src (ptr ++ c.toks) c.kind c.j typed)
+      kids := cs.map (fun c => (ptr ++ c.toks, c.kind)),
+      skipped := extra.map (fun c => (ptr ++ c.toks, c.kind)), typed := typed } ::
+    (cs ++ extra).flatMap (fun c => enum f cx src (ptr ++ c.toks) c.kind c.j typed)
+
+/-- the top-level positions of a document: walked ones first, then those that are reference-capable by type only -/
+def docAll (j : Json) : List Child :=
+  let cs := docChildren j
+  cs ++ (specDocChildren j).filter (fun c => !cs.any (fun d => d.toks == c.toks && d.kind == c.kind))
 
 def enumDoc (cx : Cx) (src : String) (j : Json) : List CNode :=
-  (docChildren j).flatMap (fun c => enum 64 cx src c.toks c.kind c.j true)
+  (docAll j).flatMap (fun c => enum 64 cx src c.toks c.kind c.j true)
 
 /-! ### The resolver skeleton the model assumes (compared with the generated table `Gen.resolverSkeleton`) -/
 
-def goName : Kind → String
-  | .header => "Header" | .parameter => "Parameter" | .requestBody => "RequestBody" | .response => "Response"
-  | .schema => "Schema" | .securityScheme => "SecurityScheme" | .example => "Example" | .callback => "Callback"
-  | .link => "Link" | .pathItem => "PathItem"
+/-- does `documentPath, err = loader.loadSingleElementFromURI(…)` move the document path (or is it `_, err =`):
+    every routine does since 0a3c233 -/
+def movesDocumentPath : Kind → Bool := fun _ => true
 
-/-- does `documentPath, err = loader.loadSingleElementFromURI(…)` move the document path (or is it `_, err =`) -/
-def movesDocumentPath : Kind → Bool
-  | .securityScheme | .example | .link => false
-  | _ => true
+/-- the rest of the routine (the walk of the value's children) runs in the TARGET's context: only
+    `resolvePathItemRef` assigns `doc, documentPath, err = loader.resolveComponent(…)`; the other nine declare
+    locals `doc, componentPath, err :=` that end with the else-block -/
+def walksInTargetContext : Kind → Bool
+  | .pathItem => true
+  | _ => false
 
-/-- the resolvers a routine calls on child positions, in source order -/
-def walkCalls : Kind → List Kind
-  | .header => [.schema]
-  | .parameter => [.schema, .schema]
-  | .requestBody => [.example, .schema]
-  | .response => [.header, .example, .schema, .link]
-  | .schema => [.schema, .schema, .schema, .schema, .schema, .schema, .schema]
-  | .callback => [.pathItem]
-  | .pathItem => [.parameter, .parameter, .requestBody, .response, .callback]
-  | _ => []
-
-/-- flags: value-present check, shouldVisitRef, visitRef, single-element branch, single-element load moves
-    documentPath, resolveComponent, recursive call on the local copy, deferred unvisitRef -/
-def skeletonFlags (k : Kind) : List Bool :=
-  [true, true, true, true, movesDocumentPath k, true, k != .pathItem, true]
+/-- the statements of a routine's `$ref` block as the model reads them (tokens of the generated table):
+    isEmpty test; value present → return; text in progress → callback (ok-checked assertion: `unvisit` skips
+    values of another kind); visitRef; whole-file branch (decode the element, MOVE documentPath, set the value);
+    fragment branch (local copy, resolveComponent, recursive call on the copy — for path items only when the
+    copy is a reference —, set the value); deferred unvisitRef LAST (error returns and the swallowed
+    errMUST… leave the text in progress) -/
+def skeletonSteps (k : Kind) : List String :=
+  ["empty", "value", "shouldVisit:checked", "visit", "single(", "elem",
+   (if movesDocumentPath k then "load:moves" else "load:stays"), "setValue"] ++
+  (if k = .pathItem then [] else ["setRefPath:moved"]) ++
+  [")", "fragment(", "copy"] ++
+  (if walksInTargetContext k then ["component:switch", "recurse:ifRef", "setValue"]
+   else ["component:local", "fail", "recurse:swallowEmpty", "setValue", "setRefPath:target"]) ++
+  [")"] ++ (if k = .pathItem then ["keepRef"] else []) ++ ["defer:unvisit"]
 
 def kindsByGoName : List Kind :=
   [.callback, .example, .header, .link, .parameter, .pathItem, .requestBody, .response, .schema, .securityScheme]
+
+/-- The functions `stepGo` / `docLoadGo` / `unvisit` / `loadDoc` were written from, as they were read: the two
+    shortest as text (`unescGo` = `~1` first, then `~0`; a reference without `#` is a whole file), the others as the
+    digest of signature and body. A change of any of them breaks `skeleton_matches_model`: re-read it, bring the
+    model in line, then update the digest. (Digests at repository commit dfc5235.) -/
+def frozen : List (String × String) :=
+  [("drillIntoField", "sha256:230fefe7d39d4741"),
+   ("isSingleRefElement", "{ return !strings.Contains(ref, \"#\") }"),
+   ("join", "sha256:248e27cd7be2c33e"),
+   ("loadFromDataWithPathInternal", "sha256:6ccad2f87e2fe281"),
+   ("loadFromURIInternal", "sha256:bbc70f746eeaaa24"),
+   ("loadSingleElementFromURI", "sha256:0a809f24ce12af89"),
+   ("resolveComponent", "sha256:14c4da81ffb14b3b"),
+   ("resolvePath", "sha256:06f2e27942d0a986"),
+   ("resolvePathWithRef", "sha256:f16cea032f5e4a16"),
+   ("resolveRef", "sha256:271f1842a235ded5"),
+   ("resolveRefAndDocument", "sha256:9e1fe64438b4de6a"),
+   ("resolveRefPath", "sha256:7397a3c2dde3908c"),
+   ("shouldVisitRef", "sha256:5fd3c28aeb95d700"),
+   ("unescapeRefString", "{ return strings.Replace(strings.Replace(ref, \"~1\", \"/\", -1), \"~0\", \"~\", -1) }"),
+   ("unvisitRef", "sha256:823d2cc9b725947c"),
+   ("visitRef", "sha256:703f4f7db8bcb99a")]
+
+def routineRow (k : Kind) : String × List String × List String :=
+  (goName k, skeletonSteps k, Pos.calleesList (positions k))
+
+/-- what the generated table `Gen.resolverSkeleton` must be (rows sorted by name): the ten routines, the two
+    walk helpers, `ResolveRefsIn` ("Document"), and the one-step functions whose text the model's `stepGo` was
+    written from (`frozen`) -/
+def expectedSkeleton : List (String × List String × List String) :=
+  [routineRow .callback, ("ContentRefs", [], Pos.calleesList contentPos), ("Document", [], Pos.calleesList documentPos),
+   routineRow .example, ("ExampleRefs", [], Pos.calleesList examplesPos), routineRow .header, routineRow .link,
+   routineRow .parameter, routineRow .pathItem, routineRow .requestBody, routineRow .response, routineRow .schema,
+   routineRow .securityScheme] ++ frozen.map (fun (n, t) => ("fn:" ++ n, [t], []))
+
+/-- what `Gen.loaderWalked` must be: the position trees as token lists (rows sorted by name) -/
+def expectedWalked : List (String × List (String × String × List String)) :=
+  [("Callback", Pos.flatList callbackPos), ("ContentRefs", Pos.flatList contentPos), ("Document", Pos.flatList documentPos),
+   ("Example", []), ("ExampleRefs", Pos.flatList examplesPos), ("Header", Pos.flatList headerPos), ("Link", []),
+   ("Parameter", Pos.flatList parameterPos), ("PathItem", Pos.flatList pathItemPos),
+   ("RequestBody", Pos.flatList requestBodyPos), ("Response", Pos.flatList responsePos), ("Schema", Pos.flatList schemaPos),
+   ("SecurityScheme", [])]
+
+/-- what `Gen.loaderRefPositions` must be -/
+def expectedRefPositions : List (String × String × String) :=
+  (kindsByGoName.flatMap (fun k => (refPositions k).map (fun (p, c) => (goName k, "/".intercalate p, goName c)))) ++
+  docRefPositions.map (fun (p, c) => ("Document", "/".intercalate p, goName c))
 
 /-! ### One step of the loader -/
 
 inductive StepR
   | fail
-  | panicNil                                         -- typed nil field reached: nil dereference in resolveComponent
   | empty                                            -- fragment `#` of a document without extensions: an empty component
   /-- `cx`: the context to continue in; `home`: the context the target object is written in -/
   | node (cx : Cx) (home : Cx) (src : String) (ptr : List String) (typed : Bool) (docLoad : Option String)
@@ -321,20 +500,37 @@ inductive StepR
 
 def knownTop : List String := ["openapi", "components", "info", "paths", "security", "servers", "tags", "externalDocs"]
 
-/-- kind of the typed position `ptr` in the document `j` (`none`: not a reference-capable position) -/
-def typedKind (j : Json) (ptr : List String) : Option Kind :=
-  ((enumDoc ⟨none, none⟩ "" j).find? (·.ptr == ptr)).map (·.kind)
+/-- the reference-capable positions of a document BY TYPE (pointer, kind), values only (a `$ref` object has no
+    children of its own) -/
+def specEnum : Nat → List String → Kind → Json → List (List String × Kind)
+  | 0, _, _, _ => []
+  | f + 1, ptr, k, j =>
+    (ptr, k) :: (if (refOf j).isSome then [] else
+      (specChildren k j).flatMap (fun c => specEnum f (ptr ++ c.toks) c.kind c.j))
 
-def typedNode (j : Json) (ptr : List String) : Option CNode :=
-  (enumDoc ⟨none, none⟩ "" j).find? (·.ptr == ptr)
+def specEnumDoc (j : Json) : List (List String × Kind) :=
+  (specDocChildren j).flatMap (fun c => specEnum 64 c.toks c.kind c.j)
 
-def nilFieldNames (parent : Kind) : List String :=
-  match parent with
-  | .schema => ["items", "not", "additionalProperties"]
-  | .parameter => ["schema"]
-  | _ => []
+/-- per document (store key; `none` = the root document given as data), computed once per case:
+    `go` — the positions of the typed document tree as the loader's drill-down sees them;
+    `spec` — the reference-capable positions by type -/
+structure Tabs where
+  go   : List (Option String × List CNode)
+  spec : List (Option String × List (List String × Kind))
 
-def stepGo (fs : Files) (rootData : Option Json) (cx : Cx) (text : String) (k : Kind) : StepR :=
+def mkTabs (fs : Files) (rootData : Option Json) : Tabs :=
+  let docs : List (Option String × Json) :=
+    (match rootData with | some j => [(none, j)] | none => []) ++ fs.map (fun (k, j) => (some k, j))
+  { go := docs.map (fun (k, j) => (k, enumDoc ⟨none, none⟩ "" j)),
+    spec := docs.map (fun (k, j) => (k, specEnumDoc j)) }
+
+def Tabs.goOf (t : Tabs) (u : Option String) : List CNode := ((t.go.find? (·.1 == u)).map (·.2)).getD []
+
+/-- kind of the typed position `ptr` of document `u` by type (`none`: not a reference-capable position) -/
+def Tabs.specKind (t : Tabs) (u : Option String) (ptr : List String) : Option Kind :=
+  ((t.spec.find? (·.1 == u)).bind (fun e => e.2.find? (·.1 == ptr))).map (·.2)
+
+def stepGo (fs : Files) (rootData : Option Json) (tabs : Tabs) (cx : Cx) (text : String) (k : Kind) : StepR :=
   let docJson (u : Option String) : Option Json := match u with | some u => fetch fs u | none => rootData
   let (p, frag) := splitHash text
   match frag with
@@ -346,8 +542,7 @@ def stepGo (fs : Files) (rootData : Option Json) (cx : Cx) (text : String) (k : 
     | some j =>
       if !isObj j then .fail
       else
-        let moves := movesDocumentPath k
-        .node ⟨cx.doc, if moves then some u else cx.path⟩ ⟨cx.doc, some u⟩ (storeKey u) [] false none
+        .node ⟨cx.doc, if movesDocumentPath k then some u else cx.path⟩ ⟨cx.doc, some u⟩ (storeKey u) [] false none
   | some fr =>
     let internal := p = ""
     let cdoc : Option String := if internal then cx.doc else some (resolvePathGo cx.path p)
@@ -364,7 +559,7 @@ def stepGo (fs : Files) (rootData : Option Json) (cx : Cx) (text : String) (k : 
       let dsrc := match cdoc with | some u => storeKey u | none => ""
       -- `Header` embeds `Parameter` without a yaml tag: drillIntoField finds no field of a header, so every
       -- pointer that passes through a header object is a drill error (→ raw re-read)
-      let tab := enumDoc ⟨none, none⟩ "" dj
+      let tab := tabs.goOf (cdoc.map storeKey)
       let typedNode (_ : Json) (p : List String) : Option CNode := tab.find? (·.ptr == p)
       let throughHeader := (List.range toks.length).any (fun i => (typedNode dj (toks.take i)).any (fun n => n.kind == .header && n.ref.isNone) && i > 0)
       match (if throughHeader then none else typedNode dj toks) with
@@ -378,23 +573,17 @@ def stepGo (fs : Files) (rootData : Option Json) (cx : Cx) (text : String) (k : 
           | none => .fail
         else if (rawAt dj toks).isSome && !throughHeader then .fail       -- drill succeeds, type differs: "bad data"
         else
-          -- nil typed field of an existing value?
-          let parent := toks.dropLast
-          let last := toks.getLast?.getD ""
-          let pk := (typedNode dj parent).bind (fun n => if n.ref.isNone then some n.kind else none)
-          let isNil : Bool := match pk with | some pk => (nilFieldNames pk).contains last && k == .schema | none => false
-          if isNil then .panicNil
-          else
-            -- drill error → the raw re-read of `path` (the REFERRING file)
-            match cx.path with
+          -- drill error (absent key, nil typed field, anything below a header) → the raw re-read of
+          -- `componentPath`, the REFERENCED file (for a `#/…` reference: the referring `documentPath`)
+          match cpath with
+          | none => .fail
+          | some rp =>
+            match fetch fs rp with
             | none => .fail
-            | some rp =>
-              match fetch fs rp with
+            | some rj =>
+              match rawAt rj toks with
+              | some v => if isObj v then .node ⟨cdoc, cpath⟩ ⟨cdoc, cpath⟩ (storeKey rp) toks false load else .fail
               | none => .fail
-              | some rj =>
-                match rawAt rj toks with
-                | some v => if isObj v then .node ⟨cdoc, cpath⟩ ⟨cdoc, cpath⟩ (storeKey rp) toks false load else .fail
-                | none => .fail
 
 /-- the document `resolveRefAndDocument` loads (and walks, when new) for a reference: external references
     with a fragment, whatever the fragment turns out to name -/
@@ -428,7 +617,7 @@ def stepSpec (fs : Files) (rootData : Option Json) (loc : Option String) (text :
 
 /-- the object a reference designates: follow the chain in the raw files; every hop must be an object and,
     where it sits at a typed position of its document, of the expected kind -/
-def specDesignates (fs : Files) (rootData : Option Json) : Nat → Option String → String → Kind → Option (Option String × Json)
+def specDesignates (fs : Files) (rootData : Option Json) (tabs : Tabs) : Nat → Option String → String → Kind → Option (Option String × Json)
   | 0, _, _, _ => none
   | f + 1, loc, text, k =>
     match stepSpec fs rootData loc text with
@@ -436,16 +625,15 @@ def specDesignates (fs : Files) (rootData : Option Json) : Nat → Option String
     | some (file, toks, v) =>
       if !isObj v then none
       else
-        let docj := match file with | some u => fetch fs u | none => rootData
         -- inside the typed part of a document (known top-level fields) the position must be one of kind k;
         -- whole files and positions under unknown top-level keys carry no kind of their own
         let kindOK := match toks with
           | [] => true
           | first :: _ =>
-            if knownTop.contains first then (docj.bind (fun d => typedKind d toks)) == some k else true
+            if knownTop.contains first then tabs.specKind file toks == some k else true
         if !kindOK then none
         else match refOf v with
-          | some t' => specDesignates fs rootData f file t' k
+          | some t' => specDesignates fs rootData tabs f file t' k
           | none => some (file, v)
 
 /-- the file an external fragment reference names (RFC resolution), when it exists: the loader loads
@@ -461,26 +649,26 @@ def specDocOf (fs : Files) (loc : Option String) (text : String) : Option String
 
 /-- all references that take part in the load: those reachable from the root document through designated
     objects, and those written in documents named by external fragment references: (rid, designated value) -/
-def specWalk (fs : Files) (rootData : Option Json) : Nat → List (Option String × Kind × Json × String) → List String → List (String × Option Json) → List (String × Option Json)
+def specWalk (fs : Files) (rootData : Option Json) (tabs : Tabs) : Nat → List (Option String × Kind × Json × String) → List String → List (String × Option Json) → List (String × Option Json)
   | 0, _, _, acc => acc
   | _, [], _, acc => acc
   | f + 1, (loc, k, j, name) :: rest, docs, acc =>
     match refOf j with
     | some t =>
       let rid := ridOf k j [name]
-      if acc.any (·.1 = rid) then specWalk fs rootData f rest docs acc
+      if acc.any (·.1 = rid) then specWalk fs rootData tabs f rest docs acc
       else
         let item (l : Option String) (c : Child) : Option String × Kind × Json × String := (l, c.kind, c.j, c.toks.getLast?.getD "")
         let (docs, extra) : List String × List (Option String × Kind × Json × String) := match specDocOf fs loc t with
           | some d => if docs.contains d then (docs, []) else
               (docs ++ [d], match fetch fs d with
-                | some dj => (docChildren dj).map (item (some d))
+                | some dj => (specDocChildren dj).map (item (some d))
                 | none => [])
           | none => (docs, [])
-        match specDesignates fs rootData 64 loc t k with
-        | none => specWalk fs rootData f (rest ++ extra) docs (acc ++ [(rid, none)])
+        match specDesignates fs rootData tabs 64 loc t k with
+        | none => specWalk fs rootData tabs f (rest ++ extra) docs (acc ++ [(rid, none)])
         | some (file, v) =>
-          specWalk fs rootData f (rest ++ extra ++ (children k v).map (item file)) docs (acc ++ [(rid, some v)])
-    | none => specWalk fs rootData f (rest ++ (children k j).map (fun c => (loc, c.kind, c.j, c.toks.getLast?.getD ""))) docs acc
+          specWalk fs rootData tabs f (rest ++ extra ++ (specChildren k v).map (item file)) docs (acc ++ [(rid, some v)])
+    | none => specWalk fs rootData tabs f (rest ++ (specChildren k j).map (fun c => (loc, c.kind, c.j, c.toks.getLast?.getD ""))) docs acc
 
 end KinModel.LoaderJson
